@@ -2498,8 +2498,7 @@ func (v Value) call(op string, in []Value) (out []Value) {
 		panic(err)
 	}
 	if sig.RType != ffi.TypeVoid {
-		v := runtime.AllocZ(sig.RType.Size)
-		ret = unsafe.Pointer(&v)
+		ret = runtime.AllocZ(sig.RType.Size)
 	}
 
 	ffi.Call(sig, fn, ret, args...)
